@@ -17,6 +17,7 @@ CONSTANTS Ls, Ms,        \* sets of vector lengths (signer / committed)
 Pat(L, off) == [j \in 1 .. L |-> << ((j + off) % 3) + 1 >>]     \* messages <<1>>, <<2>>, <<3>> repeating
 FRESH == << 9 >>
 Positions(L) == IF L = 0 THEN {} ELSE {1, (L + 1) \div 2, L}
+SwapPos(L) == {p \in {1, 2, 3, (L + 1) \div 2, L - 1} : p >= 1 /\ p + 1 <= L}
 
 Setup == pc = "setup" /\ Step(KeyGen(1)) /\ pc' = "go"
 
@@ -32,8 +33,9 @@ SigEdit ==
      \/ \E p \in Positions(L) : Step(Verify(SH, 1, o.s, o.hdr, [o.msgs EXCEPT ![p] = FRESH]))
      \/ \E p \in Positions(L) : Step(Verify(SH, 1, o.s, o.hdr, SubSeq(o.msgs, 1, p - 1) \o SubSeq(o.msgs, p + 1, L)))
      \/ \E p \in Positions(L) \cup {0} : Step(Verify(SH, 1, o.s, o.hdr, SubSeq(o.msgs, 1, p) \o << FRESH >> \o SubSeq(o.msgs, p + 1, L)))
-     \/ L >= 2 /\ Step(Verify(SH, 1, o.s, o.hdr, [o.msgs EXCEPT ![L - 1] = o.msgs[L], ![L] = o.msgs[L - 1]]))
-     \/ L >= 2 /\ Step(Verify(SH, 1, o.s, o.hdr, [o.msgs EXCEPT ![1] = o.msgs[2], ![2] = o.msgs[1]]))
+     \* two neighbouring messages exchanged (near the start, in the middle, at the end), and the second with the last
+     \/ \E p \in SwapPos(L) : Step(Verify(SH, 1, o.s, o.hdr, [o.msgs EXCEPT ![p] = o.msgs[p + 1], ![p + 1] = o.msgs[p]]))
+     \/ L >= 4 /\ o.msgs[2] # o.msgs[L] /\ Step(Verify(SH, 1, o.s, o.hdr, [o.msgs EXCEPT ![2] = o.msgs[L], ![L] = o.msgs[2]]))
   /\ pc' = "done"
 SigUpdate ==
   /\ pc = "sig"
@@ -68,6 +70,14 @@ ProofEdit ==
      \/ R >= 2 /\ dm[R - 1] # dm[R] /\ Step(ProofVerify(PH, 1, p.s, p.hdr, p.ph, [dm EXCEPT ![R - 1] = dm[R], ![R] = dm[R - 1]], ix))
      \/ Step(ProofVerify(PH, 1, p.s, << 2 >>, p.ph, dm, ix))
   /\ pc' = "done"
+
+\* the proof octets extended / truncated by whole scalars, presented for the honest statement
+ProofResize == /\ pc = "proof"
+               /\ \E d \in {-1, 1, 2} : Step(Tamper(PH, {}, d))
+               /\ pc' = "resized"
+AfterResize == /\ pc = "resized"
+               /\ LET p == objs[PH] IN Step(ProofVerify(PH, 1, p.s, p.hdr, p.ph, Disc(p), SortSet(p.D)))
+               /\ pc' = "done"
 
 \* ---- blind interface ------------------------------------------------------------
 DoCommit == /\ pc = "go"
@@ -112,7 +122,7 @@ BlindProofEdit ==
 Next == \/ Setup
         \/ (Fam \in {"sig", "proof", "all"} /\ DoSign)
         \/ (Fam \in {"sig", "all"} /\ (SigHonest \/ SigEdit \/ SigUpdate \/ AfterUpdate))
-        \/ (Fam \in {"proof", "all"} /\ (DoGen \/ ProofHonest \/ ProofEdit))
+        \/ (Fam \in {"proof", "all"} /\ (DoGen \/ ProofHonest \/ ProofEdit \/ ProofResize \/ AfterResize))
         \/ (Fam \in {"blind", "all"} /\ (DoCommit \/ DoBlindSign \/ BlindHonest \/ BlindEdit \/ DoBlindGen \/ BlindProofHonest \/ BlindProofEdit))
 
 MCInit == Init /\ pc = "setup" /\ hist = << >>
